@@ -107,6 +107,7 @@ class PageDecoder:
 
     def process_page(self, page_layout: PageLayout):
         self.last_h = None
+        self.last_line = None  # the LM context must not leak from the previously decoded page
         for line in page_layout.lines_iterator():
             try:
                 line.transcription = self.decode_line(line)
